@@ -27,6 +27,8 @@ func checkC06(c *Ctx) {
 	c.subscribeValidatesFirst()
 	c.pruneGuards()
 	c.trieTraversals()
+	c.wildcardCoversParent()
+	c.endOfLevelsSignal()
 	lockBalance(c, func(cl string) bool { return strings.HasPrefix(cl, "topics.") }, "topic-store")
 	c.topicStoreLocking()
 }
@@ -384,4 +386,163 @@ func (c *Ctx) topicStoreLocking() {
 		}
 	}
 	c.R.Rule("G1-guarded-by", "state that the code protects with a mutex somewhere is accessed with that mutex held everywhere; writes exclusively.")
+}
+
+const ruleT9 = "T9-level-structure"
+
+// wildcardCoversParent: MQTT-4.7.1-2 - "sport/#" also matches "sport". In the trie this
+// means: where the subscription match runs out of topic levels (its terminal branch) it
+// must also collect the subscribers of the child keyed "#". The retained lookup gets the
+// same effect from allRetained collecting the node's own message (checked above).
+func (c *Ctx) wildcardCoversParent() {
+	c.R.Rule(ruleT9, "the level structure of MQTT 4.7 is respected by the trie walks: (a) where the subscription match has consumed all levels of the topic it also collects the subscribers of the child keyed by the multi-level wildcard ('#' matches its parent level); (b) the walks can tell 'no further level' from 'one further, empty level': either the splitter never returns an empty remainder for a separator it consumed, or the walks end on a nil remainder rather than on an empty one.")
+	fn := c.P.Func("topics", "snode", "smatch")
+	if fn == nil {
+		c.R.Unresolved("topics.snode.smatch")
+		return
+	}
+	g := paths.New(c.P, fn, 1)
+	pos := c.P.Pos(fn.Pos())
+	// the terminal region: nodes reachable from entry under "no levels left" that do not pass the splitter
+	split := nodeM(mFunc(pkgTopics, "nextTopicLevel"))
+	// a matchQos call on a value obtained from the children map with key "#"
+	isHashChild := func(v ssa.Value) bool {
+		v = ir.SeeThrough(v)
+		if ex, ok := v.(*ssa.Extract); ok {
+			v = ex.Tuple
+		}
+		lk, ok := v.(*ssa.Lookup)
+		if !ok || ir.PathOf(lk.X).Class() != "topics.snode.snodes" {
+			return false
+		}
+		k, ok := lk.Index.(*ssa.Const)
+		return ok && k.Value != nil && k.Value.ExactString() == `"#"`
+	}
+	collectHash := func(n paths.Node) bool {
+		call := paths.CallAt(n)
+		if call == nil || !ir.IsMethod(call.Common(), pkgTopics, "snode", "matchQos") {
+			return false
+		}
+		if isHashChild(call.Common().Args[0]) {
+			return true
+		}
+		// or: a child visited while ranging over the children, under `key == "#"`
+		if ex, ok := ir.SeeThrough(call.Common().Args[0]).(*ssa.Extract); ok {
+			if nx, ok := ex.Tuple.(*ssa.Next); ok {
+				if rg, ok := nx.Iter.(*ssa.Range); ok && ir.PathOf(rg.X).Class() == "topics.snode.snodes" {
+					blk := call.Block()
+					for d := blk; d != nil && d.Idom() != nil; d = d.Idom() {
+						id := d.Idom()
+						iff, ok := id.Instrs[len(id.Instrs)-1].(*ssa.If)
+						if !ok {
+							continue
+						}
+						bo, ok := iff.Cond.(*ssa.BinOp)
+						if !ok || bo.Op.String() != "==" || !(id.Succs[0] == d || id.Succs[0].Dominates(d)) {
+							continue
+						}
+						for _, side := range []ssa.Value{bo.X, bo.Y} {
+							if k, ok := side.(*ssa.Const); ok && k.Value != nil && k.Value.ExactString() == `"#"` {
+								return true
+							}
+						}
+					}
+				}
+			}
+		}
+		return false
+	}
+	// every path from the entry that never reaches the splitter (the terminal branch) and on which the
+	// "#" child exists passes the collection
+	terminalExit := func(n paths.Node) bool { return n.IsExit() }
+	avoid := func(n paths.Node) bool { return split(n) || collectHash(n) }
+	old := g.PruneEdge
+	g.PruneEdge = pruneBy(Assume{"lookup:topics.snode.snodes": true, "nonnil:topics.snode.snodes": true}, old)
+	p := g.FindPath([]paths.Node{g.Entry()}, avoid, terminalExit)
+	g.PruneEdge = old
+	if p != nil {
+		// range form: the terminal branch walks all children and collects the one keyed "#"; the loop is
+		// only left at its header, and every path through the terminal branch runs it
+		for _, n := range nodesMatching(g, collectHash) {
+			if n.F != g.Root || isHashChild(paths.CallAt(n).Common().Args[0]) {
+				continue
+			}
+			l := ir.InnermostLoop(ir.Loops(fn), n.Instr.Block())
+			if l == nil {
+				continue
+			}
+			early := false
+			for _, e := range l.ExitEdges() {
+				if e[0] != l.Header {
+					early = true
+				}
+			}
+			hdr := paths.Node{F: g.Root, Instr: l.Header.Instrs[0], Phase: -1}
+			skip := g.FindPath([]paths.Node{g.Entry()}, func(x paths.Node) bool { return split(x) || x == hdr }, terminalExit)
+			if !early && skip == nil {
+				p = nil
+			}
+		}
+	}
+	if p != nil {
+		c.R.Bad(ruleT9, "smatch:multi-level-wildcard-covers-parent", pos, "when the topic's levels are used up the match returns the node's own subscribers only and never looks at its '#' child: a subscription to \"sport/#\" does not receive publishes to \"sport\" (MQTT-4.7.1-2)", c.witness(g, p)...)
+	} else {
+		c.R.Ok(ruleT9, "smatch:multi-level-wildcard-covers-parent", pos, "the terminal branch also collects the subscribers of the '#' child")
+	}
+}
+
+// endOfLevelsSignal: T9(b).
+func (c *Ctx) endOfLevelsSignal() {
+	sp := c.P.Func("topics", "", "nextTopicLevel")
+	if sp == nil {
+		return
+	}
+	// can the splitter return an empty, non-nil remainder? (a slice topic[i+1:] taken without i+1 < len(topic))
+	emptyRem := ""
+	for _, ret := range ir.Returns(sp) {
+		if k, ok := ir.ReturnOperand(ret, 2).(*ssa.Const); !ok || !k.IsNil() {
+			continue
+		}
+		if sl, ok := ir.ReturnOperand(ret, 1).(*ssa.Slice); ok && sl.High == nil {
+			guarded := false
+			for _, f := range c.blockFacts(ret.Block(), 1) {
+				if strings.HasPrefix(f.Atom, "lt:") || strings.HasPrefix(f.Atom, "gt:len(") {
+					guarded = true
+				}
+			}
+			if !guarded {
+				emptyRem = c.P.InstrPos(ret)
+			}
+		}
+	}
+	for _, x := range []struct{ typ, fn string }{{"snode", "sinsert"}, {"snode", "sremove"}, {"snode", "smatch"}, {"rnode", "rinsert"}, {"rnode", "rremove"}, {"rnode", "rmatch"}} {
+		fn := c.P.Func("topics", x.typ, x.fn)
+		if fn == nil {
+			continue
+		}
+		key := x.fn + ":end-of-levels-signal-unambiguous"
+		// the terminal test: the first branch of the walk on its topic parameter
+		byLen, byNil := false, false
+		for _, b := range fn.Blocks {
+			iff, ok := b.Instrs[len(b.Instrs)-1].(*ssa.If)
+			if !ok {
+				continue
+			}
+			a, _ := edgeAtom(iff, 0)
+			if a == "eq:len(topic):0" || a == "gt:len(topic):0" {
+				byLen = true
+			}
+			if a == "nonnil:topic" {
+				byNil = true
+			}
+		}
+		switch {
+		case emptyRem == "":
+			c.R.Ok(ruleT9, key, c.P.Pos(fn.Pos()), "the splitter never returns an empty remainder")
+		case byNil && !byLen:
+			c.R.Ok(ruleT9, key, c.P.Pos(fn.Pos()), "the walk ends on a nil remainder; an empty remainder is one more (empty) level")
+		default:
+			c.R.Bad(ruleT9, key, c.P.Pos(fn.Pos()), "the splitter returns an empty remainder after a trailing separator ("+emptyRem+") and "+x.fn+" ends its walk on len(topic) == 0: the empty last level of \"a/\" is dropped, so \"a/\" and \"a\" are the same filter / topic and \"a/+\" does not match \"a/\" (MQTT 4.7.1.1: empty levels are levels)")
+		}
+	}
 }
